@@ -65,6 +65,12 @@ def check(run):
     with R.as_rule('C14.payload'):
         C03.lenenc(R)        # ... and with the shortest length form: a 125-byte Pong is a 7-bit-length control frame
         C03.flags(R)
+    from . import C11 as _C11, C01 as _C01
+    R.rule('C14.whole', 'a Pong goes out whole and in turn: every socket write is inside the session lock; a Ping of up to 125 '
+                        'bytes (any legal length encoding) is accepted by the frame checks', 6)
+    with R.as_rule('C14.whole'):
+        _C11.locked(R)
+    _C01.accept(R, RID='C14.whole')
     with R.as_rule('C14.lazy'):
         C05.awaitables_fresh(R, 'C14.lazy')     # a header cut across two reads does not derail the frames (Pings) after it
     C08.onlyclose(R, RID='C14.open')
